@@ -268,16 +268,22 @@ def proof_layer(prop, thorough=False):
 # ------------------------------------------------------------------ runners
 
 def _run_lines(binary, lines, timeout):
-    """Feeds lines to a runner; if the child dies mid-way, records `abort` for the case it died
-    on and restarts after it.  Returns a list of result strings (comments stripped)."""
+    """Feeds lines to a runner; if the child dies or hangs mid-way, records `abort` for the case it
+    stopped on and restarts after it (at most 3 times, then the rest of the shard is `abort`).
+    The time limit scales with the number of lines.  Returns (results without comments, raw)."""
     results = []
     pos = 0
     n = len(lines)
+    failures = 0
     while pos < n:
         chunk = lines[pos:]
+        if failures >= 3:
+            results.extend(["abort"] * len(chunk))
+            break
+        limit = min(timeout, 90 + 0.05 * len(chunk))
         try:
             p = subprocess.run([binary], input="\n".join(chunk) + "\n", stdout=subprocess.PIPE,
-                               stderr=subprocess.DEVNULL, text=True, timeout=timeout, env=ENV)
+                               stderr=subprocess.DEVNULL, text=True, timeout=limit, env=ENV)
             outl = p.stdout.split("\n")
         except subprocess.TimeoutExpired as e:
             so = e.stdout or ""
@@ -294,7 +300,26 @@ def _run_lines(binary, lines, timeout):
         if len(got) < len(chunk):
             results.append("abort")
             pos += 1
+            failures += 1
     return [r.split(" ; ")[0].strip() for r in results], results
+
+
+def _run_prefix(binary, lines, timeout):
+    """Results for the longest prefix of `lines` the runner gets through within `timeout`
+    (no restart after a dead or stuck child): used by the shrinker, where a candidate that makes
+    a runner hang or die is simply not taken."""
+    try:
+        p = subprocess.run([binary], input="\n".join(lines) + "\n", stdout=subprocess.PIPE,
+                           stderr=subprocess.DEVNULL, text=True, timeout=timeout, env=ENV)
+        out = p.stdout.split("\n")
+    except subprocess.TimeoutExpired as e:
+        so = e.stdout or ""
+        if isinstance(so, bytes):
+            so = so.decode(errors="replace")
+        out = so.split("\n")[:-1]
+    if out and out[-1] == "":
+        out = out[:-1]
+    return [r.split(" ; ")[0].strip() for r in out[:len(lines)]]
 
 
 def run_sharded(binary, lines, timeout=1200, shards=None):
@@ -389,12 +414,13 @@ def compare_one(case, profiles=("debug", "release")):
     return None
 
 
-def shrink(dis, rounds=60, width=400):
+def shrink(dis, rounds=60, width=400, budget_s=90):
     """Greedy structural shrinking while the two sides still disagree and the case stays inside
     the case language on both sides.  Each round evaluates all one-step reductions in two
     process invocations (model, implementation)."""
     cur = dis
     tree = parse_sx(cur.case)
+    t_start = time.time()
     for _ in range(rounds):
         cands = []
         seen = set()
@@ -411,8 +437,10 @@ def shrink(dis, rounds=60, width=400):
         if not cands:
             break
         lines = [c for c, _ in cands]
-        m, _ = _run_lines(MODELRUN, lines, 120)
-        r, _ = _run_lines(implrun(cur.profile), lines, 120)
+        if time.time() - t_start > budget_s:
+            break
+        m = _run_prefix(MODELRUN, lines, 20)
+        r = _run_prefix(implrun(cur.profile), lines, 20)
         pick = None
         for k, (c, cand) in enumerate(cands):
             if k >= len(m) or k >= len(r):
